@@ -108,6 +108,11 @@ def hostile_world(pair, r, res, tier, nblocks, clears):
                 return found
         elif aa == "ok 1":
             res.count("arbitrary-accepted")
+    # "after such a call the core is still usable": whatever the proofs above left in memory is written out by the next checkpoint
+    ic, _ = pair.do("readonly R")
+    if klass(ic) == "crash":
+        found.append(dict(key="apply:unusable-checkpoint", what="after the arbitrary proofs the next checkpoint of the replica (make_read_only) -> %s" % ic[:160],
+                          replay=dict(blocks=nblocks, world=w.log[-40:])))
     return found
 
 
@@ -127,8 +132,10 @@ def main(tier, seed):
             res.violations.extend(vs)
             res.disagreements.extend(pair.disagreements[:2]); pair.disagreements = []
         # altered honest proofs on partially synced replicas (shared with C04), crash oracle only
-        for k in range(5 if tier == "quick" else 120):
-            vs = c04.run_world(pair, r, res, tier, crash_only=True)
+        for k in range(8 if tier == "quick" else 160):
+            # (biased towards hash and seek sections: there BOTH nodes of a sibling pair come from the peer)
+            vs = c04.run_world(pair, r, res, tier, crash_only=True,
+                               kinds=["hash", "seek", "hash", "seek", "block", "block+seek", "upgrade"] if k % 2 == 0 else None)
             res.add_case(("altered", k), True)
             res.violations.extend(vs)
             res.disagreements.extend(pair.disagreements[:2]); pair.disagreements = []
